@@ -126,10 +126,20 @@ namespace nmtools::view
 
         auto axis = meta::ct_v<-1>;
 
-        return view::sum(
+        auto result = view::sum(
             view::multiply(view::reshape(a_lhs,dst_shape),a_rhs)
             , axis
         );
+        // NOTE: the contracted (last) extents must be equal, broadcasting in multiply would accept 1 against n
+        using result_t = decltype(result);
+        if constexpr (meta::is_maybe_v<result_t>) {
+            if (has_value(result)
+                && ((nm_size_t)at(unwrap(lhs_shape),meta::ct_v<-1>) != (nm_size_t)at(unwrap(rhs_shape),meta::ct_v<-1>))
+            ) {
+                return result_t{meta::Nothing};
+            }
+        }
+        return result;
     }
 } // nmtools::view
 
